@@ -238,7 +238,19 @@ class _G:
         for m in earlier:
             if not (self.chance(80) or m is earlier[-1]):
                 continue
-            style = self.pick(["import", "from", "from", "alias"])
+            style = self.pick(["import", "from", "from", "alias", "star"])
+            if style == "star":
+                # every public symbol of m at once (>= 2 candidates behind one import statement)
+                lines.append("from %s import *" % m["name"])
+                for f in m["funcs"]:
+                    mod_sc["callables"].append({"kind": "func", "expr": f["name"], "nparams": f["nparams"], "params": f["params"]})
+                for c in m["classes"]:
+                    ent = {"kind": "class", "expr": c["name"], "nparams": 1, "cls": c}
+                    mod_sc["callables"].append(ent)
+                    bases.append(ent)
+                for cn in m["consts"]:
+                    mod_sc["consts"].append(cn)
+                continue
             if style == "import" or style == "alias":
                 ref = m["name"] if style == "import" else "m_" + m["name"][-1]
                 lines.append("import %s" % m["name"] if style == "import" else "import %s as %s" % (m["name"], ref))
@@ -335,6 +347,13 @@ def python_projects(draw):
         info, text = g.module(len(names), "leaf", [])
         files["sub_pkg/leaf.py"] = text
         files["sub_pkg/__init__.py"] = ""
+    if draw(st.integers(0, 2)) == 0:
+        # two modules of the same base name in different directories and an import that names only the base name:
+        # lian has two candidates for it
+        for d, k in (("alpha", 1), ("beta", 2)):
+            files["%s/util.py" % d] = "def load(p):\n    q = p + %d\n    return q\n\ndef keep%d(p):\n    sink(p)\n    return p\n" % (k, k)
+        last = names[-1] + ".py"
+        files[last] = "from util import load\n" + files[last] + "sink(load(%s))\n" % g.pick(EXTS)
     return {"salt": salt, "lang": "python", "files": files}
 
 
